@@ -11,6 +11,7 @@ package main
 //             crash:<inst>  rw:<unit>:<pos>  dup:<idx>        each op may carry faults  @<kind>.<occ>.<eb|ea|ll|cr>
 
 import (
+	"sync/atomic"
 	"bytes"
 	"context"
 	"errors"
@@ -216,6 +217,7 @@ type engine struct {
 	// number of processes of an instance seen in StateShutdown while the instance is running
 	deadProcs map[int]int
 	stopEarly bool // Stop returned while a process of the instance had not reached StateShutdown
+	stopHung  bool // a process of a stopped / crashed instance did not end within 3 s of real time
 }
 
 func (e *engine) attempt(code int, runID string) int {
@@ -458,26 +460,73 @@ func (e *engine) crash(inst int) {
 		}
 	}
 	e.cancels[inst]()
+	restart := func() {
+		// remove the dead processes, restart the instance
+		s.mu.Lock()
+		for k, p := range s.procs {
+			if p.inst == inst {
+				delete(s.procs, k)
+			}
+		}
+		s.mu.Unlock()
+		s.dead.del(inst)
+		e.start(inst)
+	}
+	if stopHangSeen.Load() && !e.waitDown(inst) {
+		// a process of the old incarnation never ended (it stays blocked, idle); the new incarnation starts without waiting for it
+		restart()
+		return
+	}
 	done := make(chan struct{})
 	go func() { e.wfs[inst].Stop(); close(done) }()
+	hung := time.After(3 * time.Second)
 	for {
 		select {
 		case <-done:
-			// remove the dead processes, restart the instance
-			s.mu.Lock()
-			for k, p := range s.procs {
-				if p.inst == inst {
-					delete(s.procs, k)
-				}
-			}
-			s.mu.Unlock()
-			s.dead.del(inst)
-			e.start(inst)
+			restart()
+			return
+		case <-hung:
+			e.stopHung = true
+			stopHangSeen.Store(true)
+			restart()
 			return
 		case req := <-s.reqCh:
 			req.resume <- dCancel
 		}
 	}
+}
+
+// Workflow.Stop waits (spinning) for every process of the instance to end; a process blocked on something that is not under the
+// workflow's context (a sleep, a channel nobody feeds) never ends, and Stop never returns. The harness gives such an instance
+// up after 3 s of real time (API=-7). The abandoned Stop keeps spinning, so once that has happened in this harness process
+// later stops first watch the processes end on their own (waitDown) and do not call Stop at all when one does not.
+var stopHangSeen atomic.Bool
+
+// waitDown watches the processes of an instance whose context was just cancelled end on their own, answering every call they
+// still make with a cancellation; false (and API=-7) when after 3 s of real time one has not.
+func (e *engine) waitDown(inst int) bool {
+	s := e.s
+	allDown := func() bool {
+		for _, st := range e.wfs[inst].States() {
+			if st != workflow.StateShutdown {
+				return false
+			}
+		}
+		return true
+	}
+	deadline := time.Now().Add(3 * time.Second)
+	for !allDown() {
+		select {
+		case req := <-s.reqCh:
+			req.resume <- dCancel
+		case <-time.After(200 * time.Microsecond):
+		}
+		if time.Now().After(deadline) {
+			e.stopHung = true
+			return false
+		}
+	}
+	return true
 }
 
 func (e *engine) findProc(inst int, unit string) *proc {
@@ -847,6 +896,9 @@ func runEngine(kind string, a []string) string {
 	if e.stopEarly {
 		out = append(out, "API=-5")
 	}
+	if e.stopHung {
+		out = append(out, "API=-7")
+	}
 	return strings.Join(out, " ")
 }
 
@@ -863,10 +915,18 @@ func (e *engine) shutdown(inst int) {
 		}
 	}
 	e.cancels[inst]()
+	if stopHangSeen.Load() && !e.waitDown(inst) {
+		return
+	}
 	done := make(chan struct{})
 	go func() { e.wfs[inst].Stop(); close(done) }()
+	hung := time.After(3 * time.Second)
 	for {
 		select {
+		case <-hung:
+			e.stopHung = true
+			stopHangSeen.Store(true)
+			return
 		case <-done:
 			// C11: Stop returns only after every process has shut down
 			for _, st := range e.wfs[inst].States() {
